@@ -1,8 +1,118 @@
+import Martian.Semaphore
 import Driver.Util
 
-/-! Line-protocol handler for property C12 (stub: replaced when the model exists). -/
-namespace Driver.C12
+/-! Line-protocol handler for property C12.
 
-def handle (_op : String) (_args : List String) : Option String := none
+* `C12.sem  <size>  <ops>`: ops `,`-separated: `a<id>:<n>` Acquire, `r<n>` Release,
+  `ua<n>` UpdateActual, `us<n>` UpdateSize, `uf<free>:<used>` UpdateFreeUsed (`.` = no ops).
+  Reply: one entry per op, `;`-separated: `cur:reserved:qlen:events`, events
+  `,`-separated: `g<id>=<n>` grant, `x<id>=<n>` reject, `p` panic, `v<n>` return value.
+* `C12.mj  <limit>  <ops>`: `t<id>:<w|q|r|o>:<0|1>` one pass of Acquire, `r<id>` Release,
+  `f<id>.<id>…` FindDone with these ids finished, `c` Clear.
+  Reply per op: `limit:len:ids(.-separated):<T|F|W|->`.
+* `C12.norm  <maxCores,maxMemGB,maxVmemMB,threadsPerJob,memGBPerJob,extraVmemGB>  <memCur>  <vmemCur>  <centi,memMb,vmemMb>`
+  Reply: `centi,memMb,vmemMb|cores,mem,vmem,procs` (normalised request | Acquire amounts).
+-/
+namespace Driver.C12
+open Martian.Semaphore
+
+def int? (s : String) : Option Int := s.toInt?
+def nat? (s : String) : Option Nat := s.toNat?
+
+def pair? (s : String) : Option (String × String) :=
+  match s.splitOn ":" with
+  | [a, b] => some (a, b)
+  | _ => none
+
+def parseSemOp (t : String) : Option SemOp :=
+  if t.startsWith "ua" then do let n ← int? (t.drop 2).toString; pure (.updActual n)
+  else if t.startsWith "us" then do let n ← int? (t.drop 2).toString; pure (.updSize n)
+  else if t.startsWith "uf" then do
+    let (a, b) ← pair? (t.drop 2).toString
+    let f ← int? a; let u ← int? b; pure (.updFreeUsed f u)
+  else if t.startsWith "a" then do
+    let (a, b) ← pair? (t.drop 1).toString
+    let id ← nat? a; let n ← int? b; pure (.acquire id n)
+  else if t.startsWith "r" then do let n ← int? (t.drop 1).toString; pure (.release n)
+  else none
+
+def parseList {α} (f : String → Option α) (s : String) : Option (List α) :=
+  if s == "." then some [] else (s.splitOn ",").mapM f
+
+def showEv : Ev → String
+  | .grant id n => s!"g{id}={n}"
+  | .reject id n => s!"x{id}={n}"
+  | .panic => "p"
+  | .ret v => s!"v{v}"
+
+def showStep (r : Sem × List Ev) : String :=
+  s!"{r.1.cur}:{r.1.reserved}:{r.1.waiters.length}:" ++ ",".intercalate (r.2.map showEv)
+
+def parseSt : String → Option MdState
+  | "w" => some .waiting
+  | "q" => some .queued
+  | "r" => some .running
+  | "o" => some .other
+  | _ => none
+
+def parseMJOp (t : String) : Option MJOp :=
+  if t == "c" then some .clear
+  else if t.startsWith "t" then
+    match (t.drop 1).toString.splitOn ":" with
+    | [a, b, c] => do
+      let id ← nat? a; let st ← parseSt b
+      let nb ← (if c == "1" then some true else if c == "0" then some false else none)
+      pure (.attempt id st nb)
+    | _ => none
+  else if t.startsWith "r" then do let id ← nat? (t.drop 1).toString; pure (.release id)
+  else if t.startsWith "f" then
+    let rest := (t.drop 1).toString
+    if rest == "" then some (.findDone []) else do
+      let ids ← (rest.splitOn ".").mapM nat?
+      pure (.findDone ids)
+  else none
+
+def showMJ (r : MJ × Option Bool) : String :=
+  let res := match r.2 with
+    | some true => "T"
+    | some false => "F"
+    | none => "-"
+  s!"{r.1.limit}:{r.1.running.length}:" ++ ".".intercalate (r.1.running.map toString) ++ ":" ++ res
+
+/-- attempts that go to `cond.Wait()` are shown as `W` -/
+def showMJStep (op : MJOp) (r : MJ × Option Bool) : String :=
+  match op, r.2 with
+  | .attempt .., none =>
+    s!"{r.1.limit}:{r.1.running.length}:" ++ ".".intercalate (r.1.running.map toString) ++ ":W"
+  | _, _ => showMJ r
+
+def mjTrace : MJ → List MJOp → List String
+  | _, [] => []
+  | s, op :: ops => let r := s.step op; showMJStep op r :: mjTrace r.1 ops
+
+def ints? (s : String) : Option (List Int) := (s.splitOn ",").mapM int?
+
+def handle (op : String) (args : List String) : Option String :=
+  match op, args with
+  | "sem", [size, ops] => do
+    let m ← int? size
+    let ops ← parseList parseSemOp ops
+    pure (";".intercalate ((trace (Sem.init m) ops).map showStep))
+  | "mj", [limit, ops] => do
+    let l ← int? limit
+    let ops ← parseList parseMJOp ops
+    pure (";".intercalate (mjTrace (MJ.init l) ops))
+  | "norm", [cfg, memCur, vmemCur, req] => do
+    let c ← ints? cfg
+    let mc ← int? memCur
+    let vc ← int? vmemCur
+    let r ← ints? req
+    match c, r with
+    | [a, b, cc, d, e, f], [x, y, z] =>
+      let n := normalize ⟨a, b, cc, d, e, f⟩ mc vc ⟨x, y, z⟩
+      let q := acquireAmounts n
+      pure s!"{n.centi},{n.memMb},{n.vmemMb}|{q.1},{q.2.1},{q.2.2.1},{q.2.2.2}"
+    | _, _ => none
+  | _, _ => none
 
 end Driver.C12
